@@ -1,4 +1,6 @@
 pub mod c01;
+pub mod c14;
+pub mod c19;
 
 use std::cell::Cell;
 thread_local! {
